@@ -148,6 +148,7 @@ advertise = true
 max_interval = "4s"
 min_interval = "3s"
 default_lifetime = "600s"
+preference = "high"
 
   [[interfaces.prefix]]
   prefix = "2001:db8:e2e::/64"
@@ -230,7 +231,9 @@ prometheus = true
 
 		// nextRA waits for the next router advertisement on the peer (any destination)
 		var routerLL netip.Addr
-		lastUnicast := false // the last RA seen was addressed to the peer itself
+		high := ndp.High
+		wantPrf, badPrf := &high, "" // every RA of the first run, the final one included, carries the configured preference
+		lastUnicast := false         // the last RA seen was addressed to the peer itself
 		_ = peer.SetControlMessage(ipv6.FlagDst|ipv6.FlagHopLimit, true)
 		nextRA := func(d time.Duration) *ndp.RouterAdvertisement {
 			dl := time.Now().Add(d)
@@ -243,6 +246,9 @@ prometheus = true
 				if ra, ok := m.(*ndp.RouterAdvertisement); ok {
 					routerLL = src
 					lastUnicast = cm != nil && cm.Dst != nil && !cm.Dst.IsMulticast()
+					if wantPrf != nil && ra.RouterSelectionPreference != *wantPrf && badPrf == "" {
+						badPrf = fmt.Sprintf("an RA with router lifetime %v carries preference %v, configured %v", ra.RouterLifetime, ra.RouterSelectionPreference, *wantPrf)
+					}
 					return ra
 				}
 			}
@@ -360,6 +366,37 @@ prometheus = true
 		}
 		res.obs["trace"] = trace
 
+		// several scrapers at once (an HA pair of Prometheus servers, an operator's curl): every one of them is served
+		{
+			var conns []net.Conn
+			for i := 0; i < 24; i++ {
+				if cn, err := net.DialTimeout("tcp4", addr, 2*time.Second); err == nil {
+					conns = append(conns, cn)
+				}
+			}
+			for _, cn := range conns {
+				_ = cn.SetDeadline(time.Now().Add(8 * time.Second))
+				fmt.Fprintf(cn, "GET /metrics HTTP/1.0\r\nHost: %s\r\n\r\n", addr)
+			}
+			okN, statuses := 0, map[int]int{}
+			for _, cn := range conns {
+				b, _ := io.ReadAll(cn)
+				cn.Close()
+				var st int
+				fmt.Sscanf(string(b), "HTTP/1.0 %d", &st)
+				if st == 0 {
+					fmt.Sscanf(string(b), "HTTP/1.1 %d", &st)
+				}
+				statuses[st]++
+				if st == 200 {
+					okN++
+				}
+			}
+			res.obs["overlapping_scrapes"] = fmt.Sprint(statuses)
+			if len(conns) > 0 && okN != len(conns) {
+				res.viol = append(res.viol, fmt.Sprintf("%d scrapes sent at the same moment: statuses %v, want every one answered 200", len(conns), statuses))
+			}
+		}
 		// a host that knows the router solicits its unicast address (RFC 4861 allows it): answered like any other
 		if routerLL.IsValid() {
 			for nextRA(50*time.Millisecond) != nil {
@@ -416,6 +453,10 @@ prometheus = true
 		if got := sysctl("vr0", "autoconf"); killed && got != autoconfBefore {
 			res.viol = append(res.viol, fmt.Sprintf("autoconf of the interface was %q before the daemon started and is %q after it exited", autoconfBefore, got))
 		}
+		if badPrf != "" {
+			res.viol = append(res.viol, badPrf)
+		}
+		wantPrf = nil
 		if !killed {
 			return
 		}
@@ -462,12 +503,38 @@ prometheus = true
 					res.viol = append(res.viol, "/metrics answers 200 while the interface listed first cannot be reported, and the samples of the healthy interface vr0 listed after it are missing: an incomplete scrape passed off as a complete one")
 				}
 			}
-			_ = cmdB.Process.Signal(syscall.SIGTERM)
+			// the supervisor reloads (SIGHUP): the daemon stops without telling hosts to drop the router (no zero-lifetime
+			// RA), puts autoconf back and exits with status 0
+			for nextRA(50*time.Millisecond) != nil {
+			}
+			_ = cmdB.Process.Signal(syscall.SIGHUP)
+			zero := false
+			dl := time.Now().Add(1500 * time.Millisecond)
+			for time.Now().Before(dl) {
+				if ra := nextRA(time.Until(dl)); ra != nil && ra.RouterLifetime == 0 {
+					zero = true
+				}
+			}
+			var errB error
+			exitedOK := false
 			select {
-			case <-exitedB:
+			case errB = <-exitedB:
+				exitedOK = true
 			case <-time.After(10 * time.Second):
 				_ = cmdB.Process.Kill()
-				res.viol = append(res.viol, "second run: the daemon did not exit within 10 s of SIGTERM")
+				res.viol = append(res.viol, "second run: the daemon did not exit within 10 s of SIGHUP")
+			}
+			res.obs["reload"] = fmt.Sprintf("exited=%v err=%v zero-lifetime-RA=%v autoconf=%s", exitedOK, errB, zero, sysctl("vr0", "autoconf"))
+			if exitedOK {
+				if errB != nil {
+					res.viol = append(res.viol, fmt.Sprintf("second run: the daemon exited with %v on SIGHUP, want status 0", errB))
+				}
+				if zero {
+					res.viol = append(res.viol, "second run: a router advertisement with router lifetime 0 was sent on SIGHUP (a reload must not make hosts drop the router)")
+				}
+				if got := sysctl("vr0", "autoconf"); got != autoconfBefore {
+					res.viol = append(res.viol, fmt.Sprintf("second run: autoconf of vr0 is %q after the daemon stopped on SIGHUP, it was %q before it started", got, autoconfBefore))
+				}
 			}
 			res.obs["daemon_log_b"] = lastLines(logsB.String(), 6)
 		}
